@@ -203,10 +203,15 @@ def run(ctx):
                 out.append(("id", ctx.norm.xtext(rm, idx), n))
             else:
                 it = ctx.norm.xexpr(rm, loop.iter)
-                if isinstance(it, (ast.Tuple, ast.List)):
-                    out += [("id", ast.unparse(e), n) for e in it.elts]
-                else:
-                    out.append(("each", ast.unparse(it), n))
+                # itertools.chain(A, B, ...): the members of each part in turn
+                parts = [it]
+                if isinstance(it, ast.Call) and (ast.unparse(it.func).rsplit(".", 1)[-1] == "chain") and it.args and not it.keywords:
+                    parts = [ctx.norm.xexpr(rm, a) if isinstance(a, ast.Name) else a for a in it.args]
+                for part in parts:
+                    if isinstance(part, (ast.Tuple, ast.List)):
+                        out += [("id", ast.unparse(e), n) for e in part.elts]
+                    else:
+                        out.append(("each", ast.unparse(part), n))
         return out
 
     FL = flipped_ids()
